@@ -587,6 +587,11 @@ def method(ex: I.Executor, recv: Val, name: str, args, kwargs):
             return VBool(True)
         if name == 'is_zero':
             return VBool(recv.t == 0)
+        if name == 'copy_negate' and not args:
+            # exact sign change (no rounding to the context precision, unlike unary minus); the sign of a zero is not modelled
+            return VDec(-recv.t)
+        if name == 'copy_abs' and not args:
+            return VDec(z3.If(recv.t >= 0, recv.t, -recv.t))
         if name == 'is_signed':
             ex.note('Decimal negative zero is not modelled (is_signed == value < 0)')
             return VBool(recv.t < 0)
